@@ -11,6 +11,7 @@ pub mod c05;
 pub mod c06;
 pub mod c07;
 pub mod c08;
+pub mod c09;
 pub mod c10;
 pub mod c11;
 pub mod c12;
@@ -21,6 +22,7 @@ pub mod c16;
 pub mod c17;
 pub mod c18;
 pub mod c19;
+pub mod c20;
 pub mod c14b;
 pub mod c11d;
 
@@ -58,6 +60,7 @@ pub fn run(id: &str, tier: Tier) -> i32 {
         "C06" => c06::run(tier),
         "C07" => c07::run(tier),
         "C08" => c08::run(tier),
+        "C09" => c09::run(tier),
         "C10" => c10::run(tier),
         "C11" => c11::run(tier),
         "C12" => c12::run(tier),
@@ -68,6 +71,7 @@ pub fn run(id: &str, tier: Tier) -> i32 {
         "C17" => c17::run(tier),
         "C18" => c18::run(tier),
         "C19" => c19::run(tier),
+        "C20" => c20::run(tier),
         _ => {
             eprintln!("MACHINERY: no check for {id}");
             2
@@ -87,6 +91,7 @@ pub fn replay(id: &str, file: &serde_json::Value) -> i32 {
         "C06" => c06::replay,
         "C07" => c07::replay,
         "C08" => c08::replay,
+        "C09" => c09::replay,
         "C10" => c10::replay,
         "C11" => c11::replay,
         "C12" => c12::replay,
@@ -97,6 +102,7 @@ pub fn replay(id: &str, file: &serde_json::Value) -> i32 {
         "C17" => c17::replay,
         "C18" => c18::replay,
         "C19" => c19::replay,
+        "C20" => c20::replay,
         _ => {
             eprintln!("MACHINERY: no replay for {id}");
             return 2;
